@@ -43,11 +43,14 @@ void *fib_memmove_stub(void *dest, const void *src, size_t n) {
   return dest;
 }
 
-void h_funcframe_tail_b(void) {
+/* the stack geometry (frame, stackstart, stacktop) is a CONSTANT in each call of this function: the entry point enumerates
+ * every geometry that fits FIB_CAP slots (symbolic offsets into the stack block cost tens of GiB in the solver) */
+static void tail_case(int32_t g_frame, int32_t g_ss, int32_t g_top) {
   JanetFiber f; JanetFunction fn; JanetFuncDef def; fn.def = &def;
+  g_setcap_calls = 0;
   f.capacity = nd_i32(); __CPROVER_assume(f.capacity >= 2 * JANET_FRAME_SIZE && f.capacity <= FIB_CAP);
   f.data = malloc(FIB_BLOCK * sizeof(Janet)); __CPROVER_assume(f.data != (void *)0);
-  f.frame = nd_i32(); f.stackstart = nd_i32(); f.stacktop = nd_i32();
+  f.frame = g_frame; f.stackstart = g_ss; f.stacktop = g_top;
   /* representation invariant (see fib_frame.c) */
   __CPROVER_assume(f.frame >= JANET_FRAME_SIZE && f.stackstart >= 2 * JANET_FRAME_SIZE && f.stackstart <= FIB_CAP && f.stacktop <= FIB_CAP && f.frame <= f.stackstart - JANET_FRAME_SIZE && f.stackstart <= f.stacktop && f.stacktop <= f.capacity);
   def.slotcount = nd_i32(); def.arity = nd_i32(); def.min_arity = nd_i32(); def.max_arity = nd_i32(); def.flags = nd_i32();
@@ -87,3 +90,12 @@ void h_funcframe_tail_b(void) {
                      (uint32_t) h->prevframe == (uint32_t) link0, "C05 frames tail: header names the callee, TAILCALL, caller link kept");
   }
 }
+
+/* one geometry (frame, stackstart, stacktop) per unit (-DFIB_FRAME/-DFIB_SS/-DFIB_TOP): the generator enumerates every
+ * geometry with frame >= FRAME_SIZE, stackstart >= frame + FRAME_SIZE, stackstart <= stacktop <= FIB_CAP */
+#ifndef FIB_FRAME
+#define FIB_FRAME 4
+#define FIB_SS 8
+#define FIB_TOP 8
+#endif
+void h_funcframe_tail_b(void) { tail_case(FIB_FRAME, FIB_SS, FIB_TOP); }
